@@ -25,7 +25,8 @@ def load_known(prop: str) -> list[dict]:
             data = json.load(fh)
     except FileNotFoundError:
         return []
-    return [f for f in data.get("findings", []) if f.get("property") == prop]
+    return [f for f in data.get("findings", [])
+            if f.get("property") == prop or prop in (f.get("applies_to") or [])]
 
 
 def hashseeds_for(seed: int, n: int) -> list[int]:
@@ -113,12 +114,20 @@ def main(argv=None) -> int:
     known_lines: list[str] = []
     fixed_notes: list[str] = []
     harness_trouble: list[str] = []
+    regressions: list[str] = []
     if not args.ignore_known:
         for f in load_known(prop):
+            rp = os.path.join(VERIF, f["replay"]) if f.get("replay") else None
             if f.get("status") == "fixed":
+                # a fixed entry suppresses nothing: its regression replay must stay clean
+                if rp and f.get("property") == prop:
+                    outcome, _a = run_replay(pool_factory, f["property"], rp)
+                    if outcome == "reproduced":
+                        regressions.append(rp)
+                    elif outcome == "harness-error":
+                        harness_trouble.append(f"regression replay {f['id']} failed to run")
                 continue
-            rp = os.path.join(VERIF, f["replay"])
-            outcome, _a = run_replay(pool_factory, prop, rp)
+            outcome, _a = run_replay(pool_factory, f["property"], rp)
             if outcome == "reproduced":
                 known_lines.append(f"KNOWN-FINDING: property={prop} {f['what']}")
                 if f.get("exclude"):
@@ -248,6 +257,8 @@ def main(argv=None) -> int:
         pool.close()
 
     wall = time.monotonic() - t0
+    for rp in regressions:
+        print(f"VIOLATION property={prop} replay={rp}")
     for path, best in reported:
         v = best["result"]["violation"]
         src = best["result"].get("source") or best["result"].get("sources")
@@ -306,7 +317,7 @@ def main(argv=None) -> int:
         },
         "assumptions": getattr(mod, "ASSUMPTIONS", DEFAULT_ASSUMPTIONS),
         "wall_s": round(wall, 2),
-        "violations": len(reported),
+        "violations": len(reported) + len(regressions),
     }
     if not args.no_evidence:
         os.makedirs(os.path.join(VERIF, "evidence"), exist_ok=True)
@@ -324,7 +335,7 @@ def main(argv=None) -> int:
     for c in crash_samples:
         print("compiler crash (counted as refusal):", c["error"])
 
-    if reported:
+    if reported or regressions:
         return 1
     if harness_trouble:
         for h in harness_trouble[:5]:
